@@ -4,4 +4,5 @@ CONSTANTS
   Dom <- DomFull
   ClampBug = FALSE
   SizeBug = FALSE
+  DefBug = FALSE
 INVARIANTS InType Prefix AtEnd SizeLaw RangeLaw
